@@ -8,12 +8,12 @@ VERIF = os.path.dirname(os.path.dirname(os.path.abspath(__file__)))
 # id -> (implemented, technique, level text, level note, design ref)
 CHECKS = {
     "C01": (True,
-            "exhaustive enumeration (all 2^22 triples x 4 implementations, all 1331461 structured values) against a hand-written MIDI 1.0 table; round-trip oracles",
+            "exhaustive enumeration (all 2^22 triples x 4 implementations + a precondition-reliant third-party factory + concrete-path calls + compile-time probes for further implementors; all 1331461 structured values) against a hand-written MIDI 1.0 table; round-trip oracles; scattered-order pass from fresh threads; three build configurations",
             "Exhaustive for the stated finite domain: every (status,d1,d2) triple through every factory implementation and every StructuredShortMessage value is round-tripped and compared with an independent canonical-form table. Exploration level because the oracle is executable testing, but the domain is enumerated completely.",
             "Trusts the harness's literal MIDI 1.0 table (refmodel.rs) and that the two harness-defined foreign implementors are representative of third-party implementors.",
             "DESIGN.md 4/C01"),
     "C02": (True,
-            "exhaustive enumeration of all 2^21 valid triples x 4 implementations x 19 observables against a literal MIDI 1.0 status table",
+            "exhaustive enumeration of all 2^21 valid triples x 4 implementations x 19 observables (trait path and concrete method-call path) against a literal MIDI 1.0 status table; scattered-order pass from fresh threads; three build configurations",
             "Exhaustive for the stated domain; each accessor/classifier result is compared with a table written from the MIDI 1.0 specification, not from the crate.",
             "Trusts the literal table in refmodel.rs (Channel Mode = CC 120-127).",
             "DESIGN.md 4/C02"),
@@ -33,7 +33,7 @@ CHECKS = {
             "Accepted numeral syntax is the one the property states (digits, optional leading '+'); conversion table hand-written.",
             "DESIGN.md 4/C05"),
     "C06": (True,
-            "exhaustive enumeration of all argument tuples of the 19 named and 3 generic constructors for 4 implementations; boundary/dimension sweeps (thorough: full product) of the test_util shorthands; oracle = expected bytes by integer arithmetic + reference decoding; expected-panic oracle for wrong categories / out-of-range primitives",
+            "exhaustive enumeration of all argument tuples of the 19 named and 3 generic constructors for 4 implementations (generic trait path and concrete-type path); boundary/dimension sweeps (thorough: full product) of the test_util shorthands; oracle = expected bytes by integer arithmetic + reference decoding; expected-panic oracle for wrong categories / out-of-range primitives; three build configurations incl. a release build without debug assertions",
             "Exhaustive over the argument domains of the constructors for Raw, Structured and two foreign implementors; shorthands over complete per-dimension sweeps.",
             "Trusts the literal MIDI 1.0 tables in refmodel.rs.",
             "DESIGN.md 4/C06"),
@@ -68,12 +68,12 @@ CHECKS = {
             "Only documented forms are generated (late polls only at unit boundaries); mock clock replaces std::time::Instant under the cfg hook.",
             "DESIGN.md 4/C12"),
     "C13": (True,
-            "stateful property-based testing with an explicit (mock) clock: proptest histories of feeds/polls/time steps below, at and above the timeout judged by a history observer that decides every poll exactly; BFS fixpoints of (scanner, observer) with timeout 3 ns and with a frozen clock; constructed scenario families (unpaired LSB, early-poll twin, poll once, time invisible to feed)",
+            "stateful property-based testing with an explicit (mock) clock: proptest histories of feeds/polls/time steps below, at and above the timeout (timeouts 0, 1 ns, 1 ms, 10 s, 10^18+1 ns, 2^64 ns, u64::MAX s, Duration::MAX; clock jumps up to 2^32 s; three clock epochs) judged by a history observer that decides every poll exactly; BFS fixpoints of (scanner, observer) with timeout 3 ns and with a frozen clock + repetition probes; constructed state x input over all 128 x 128 data bytes; 1..16 channels pending at once; scenario families (unpaired LSB, early-poll twin, poll once, time invisible to feed)",
             "Sampled histories for timeouts {0, 1 ns, 1 ms, 10 s, Duration::MAX}; fixpoints over an abstract alphabet on one channel.",
             "Time only advances; style-B keys cap ages at 2T+2 (sound for code that compares elapsed time with the timeout once).",
             "DESIGN.md 4/C13"),
     "C14": (True,
-            "stateful property-based testing: proptest histories over the full alphabet incl. malformed traffic, polls, resets and time, every call judged by history-observer invariants (channel, number/kind, value provenance, no duplicate, no loss, result shape); BFS fixpoints of (scanner, observer)",
+            "stateful property-based testing: proptest histories over the full alphabet incl. malformed traffic, polls, resets and time (value coupling, MIDI-spec constants, eight timeouts), every call judged by history-observer invariants (channel, number/kind, value provenance, no duplicate, no loss, result shape); BFS fixpoints of (scanner, observer) + repetition probes; constructed state x input; 1..16 channels pending at once",
             "Sampled over 16 channels and full values; fixpoint over an abstract alphabet on one channel (timeouts 0 and 3 ns).",
             "The observer asserts only what the property states for malformed traffic.",
             "DESIGN.md 4/C14"),
